@@ -38,7 +38,7 @@ CHECKS = {
     "C19": ("exploration",
             "bounded exhaustive + Hypothesis operation histories against a dict reference model, on the real RouterInfoCache and through real network-layer messages into an NSAP/NSE node",
             "All learn/forget/renumber histories up to length 3 (92-symbol alphabet) and 4-6 (15-symbol alphabet) plus Hypothesis histories of up to 300 operations are applied to a real RouterInfoCache and to a one-dict model; after every step every lookup must equal the model and the two indexes must agree, and nothing may raise. The same kinds of histories are driven through encoded I-Am-Router-To-Network / routed / Network-Number-Is frames and the public delete API into a real NSAP+NSE on a recording wire; the next-hop MAC of traffic sent afterwards must be the model's router, unknown destinations must trigger discovery.",
-            "Index agreement reads the cache's routers/path_info attributes; renumbering onto a number in use is excluded; the node has a single port (multi-port behaviour is C06)."),
+            "Index agreement reads the cache's routers/path_info attributes; renumbering onto a number in use is excluded; message-driven histories run on a one-port and on a two-port node (forwarding between ports is C06)."),
     "C04": ("fault_enumeration",
             "systematic enumeration of every single fault, every fault pair and every silence point over the frames of real client/server transactions (virtual LAN + virtual clock), plus Hypothesis fault streams; oracle = invariants at quiescence",
             "For ~200 configurations (segmentation support 4x4, windows, retries 0..3, sizes across the segmentation boundaries, ack/error/reject/abort/late/silent servers, direct and IOCB submission, 1..3 simultaneous requests) the fault-free run is replayed with every single drop/duplicate/delay at every frame index, every pair of faults on three configurations and total silence from every frame on in each direction; at quiescence exactly one outcome per request with the right invoke ID must have been delivered before an analytic horizon, and neither stack may hold a transaction, timer or queue entry or emit a frame for a finished transaction.",
